@@ -17,20 +17,22 @@ ASSUMPTIONS = [
     'latitude L1 (listing order), L2 (directories that only hold the cache file are masked), L3 (size of a directory) - DESIGN.md section 3',
     'function results embed version tag, arguments and every observation; output contents embed a digest of the observations',
 ]
-CFG = gen.cfg_with()
+CFG = gen.cfg_with(max_root=6, max_funcs=6)
 
 
 def drive(draw, h, cfg):
     h.c01_nontrivial = False
     names = list(h.prog_rel['funcs'])
     from hypothesis import strategies as st
-    n = draw(st.integers(2, 10))
     changed = False
-    for _ in range(n):
+    for _ in range(draw(st.sampled_from([0, 0, 0, 1, 2, 3]))):
+        h.failures.extend(h.apply(histprop.draw_ext(draw, h, cfg['universe'], bias=False)))
+    n = draw(st.integers(2, 10))
+    for i in range(n):
         if h.dead:
             break
-        c = draw(st.integers(0, 17))
-        if c < 9:
+        c = draw(st.sampled_from(range(16))) if i else 0
+        if c < 8:
             step = histprop.draw_build(draw, h, names)
             prev_versions = h.last.get('versions') if h.last else None
             h.failures.extend(h.apply(step))
@@ -39,7 +41,7 @@ def drive(draw, h, cfg):
                 h.c01_nontrivial = True
             if h.last.get('committed'):
                 changed = False
-        elif c < 16:
+        elif c < 15:
             step = histprop.draw_ext(draw, h, cfg['universe'])
             before = h.stats['ext_effective']
             h.failures.extend(h.apply(step))
